@@ -134,6 +134,8 @@ def correspondence(ctx):
         ctx.count(f"dist mode={mode}")
         a = dist_repr(lambda: MultinomialDistribution(p.copy(), tuple(sh), eps_zero=eps))
         pend.append(("ctor", (sh, p.tolist(), eps), a, drv.ask("ctor", qlist(p), ilist(sh), q(eff))))
+        # the same call with the RAW eps_zero argument: the model resolves None / 0.0 to the generated default
+        pend.append(("ctoro", (sh, p.tolist(), eps), a, drv.ask("ctoro", qlist(p), ilist(sh), "none" if eps is None else q(eps))))
         ctx.case(("ctor", tuple(sh), tuple(p), eps), nontrivial=mode != "plain")
         k = len(sh)
         subsets = [list(c) for r in range(1, k + 1) for c in itertools.permutations(range(k), r)]
